@@ -214,11 +214,12 @@ Definition spec_accepts (c : ccase) : bool :=
 (* ---- cmd/console/main.go runTerminal (hand-modelled; it needs a tty and is NOT driven by the
    correspondence check):
      for { lines, err := t.ReadLine()
-           if err == io.EOF { break } else if err != nil { return err }
+           if err == io.EOF { break } else if err != nil && err != ErrPasteIndicator { return err }
            for _, query := range lines { sess.ExecQuery(query) } }
-   ErrPasteIndicator is a non-nil error: a line returned with it is dropped and the loop ends. *)
+   (after the fix commit 0ba2bad a pasted line is executed like a typed one; before it, the line
+   was dropped and the loop ended). *)
 Fixpoint handed_to_engine (os : list rl_out) : list (list N) :=
   match os with
-  | Line ss false :: r => ss ++ handed_to_engine r
+  | Line ss _ :: r => ss ++ handed_to_engine r
   | _ => []
   end.
